@@ -28,6 +28,7 @@ func init() {
 		{WL: "opsim", Cfg: "prop=C02", Quick: 250, Thor: 8000},
 		{WL: "opsim", Cfg: "prop=C02,t=T1", Quick: 120, Thor: 4000},
 		{WL: "opsim", Cfg: "prop=C02,restart=1", Quick: 120, Thor: 4000},
+		{WL: "opsim", Cfg: "prop=C02,focus=snap,k=400", Quick: 200, Thor: 6000},
 	}
 	plans["C17"] = []Part{
 		{WL: "opsim", Cfg: "prop=C17", Quick: 300, Thor: 8000},
@@ -52,6 +53,7 @@ func init() {
 		{WL: "opsim", Cfg: "prop=C06", Quick: 250, Thor: 6000},
 		{WL: "opsim", Cfg: "prop=C06,t=T1", Quick: 80, Thor: 3000},
 		{WL: "opsim", Cfg: "prop=C06,restart=1,fail=0", Quick: 80, Thor: 3000},
+		{WL: "opsim", Cfg: "prop=C06,many=1", Quick: 150, Thor: 4000},
 	}
 }
 
@@ -92,6 +94,9 @@ func presetFor(prop string) opsimOpts {
 		o.MaxKube, o.Writes, o.Slow04 = 3, 20, true
 	case "C06":
 		o.MaxHooks, o.Startup, o.Sched, o.FailPct, o.StartupFail, o.Writes = 6, 70, 50, 20, true, 6
+	case "C06many":
+		// many hooks, most with equal ORDER values, no kubernetes bindings: start-up order only
+		o.Prop, o.MaxHooks, o.Startup, o.Sched, o.FailPct, o.StartupFail, o.Writes, o.NoKube = "C06", 22, 90, 10, 10, true, 2, true
 	case "C09":
 		o.Sched, o.Startup = 40, 40
 	case "C11":
@@ -318,6 +323,9 @@ func runOpsimWL(e *Env) {
 	wl := e.WL
 	prop := e.Cfg["prop"]
 	opts := presetFor(prop)
+	if e.CfgIs("many", "1") {
+		opts = presetFor(prop + "many")
+	}
 	opts.Faults = e.CfgIs("t", "T1")
 	if e.CfgIs("fail", "0") {
 		opts.FailPct = 0
@@ -333,7 +341,24 @@ func runOpsimWL(e *Env) {
 	default:
 		s.Focus = []string{"pkg/shell-operator/", "pkg/hook/"}
 	}
-	if wl.Choose(3) == 0 {
+	if f := e.Cfg["focus"]; f != "" {
+		// narrow focus: change points only inside the named anchored file(s)
+		s.Focus = nil
+		for _, x := range strings.Split(f, "+") {
+			s.Focus = append(s.Focus, map[string]string{
+				"snap":    "pkg/hook/controller/hook_controller.go",
+				"monitor": "pkg/kube_events_manager/monitor.go",
+				"ri":      "pkg/kube_events_manager/resource_informer.go",
+				"kbc":     "pkg/hook/controller/kubernetes_bindings_controller.go",
+				"op":      "pkg/shell-operator/operator.go",
+				"meh":     "pkg/shell-operator/manager_events_handler.go",
+				"queue":   "pkg/task/queue/task_queue.go",
+				"combine": "pkg/shell-operator/combine_binding_context.go",
+				"sched":   "pkg/hook/controller/schedule_bindings_controller.go",
+			}[x])
+		}
+	}
+	if wl.Choose(3) == 0 && e.Cfg["focus"] == "" {
 		s.Policy = simrt.RandomWalk
 		s.SwitchDen = []int{20, 100, 400}[wl.Choose(3)]
 		s.FocusDen = []int{3, 8, 20}[wl.Choose(3)]
